@@ -7,8 +7,8 @@ Not part of `./hgv check C07` (neither tier depends on it).  What it does:
 
   * compiles the anchored translation units of C07 and the whole runtime directory
     (src/hgraph/runtime/*.cpp, types/metadata/type_registry.cpp, type_record_registry.cpp,
-    types/utils/counted_mutex.cpp, lib/std/operators/record_replay_memory_impl.cpp) and
-    cxx/repro_driver.cpp with `clang++-14 -std=c++2b -O1 -g -fsanitize=thread` into
+    types/utils/counted_mutex.cpp; NOT record_replay_memory_impl.cpp: it crashes the clang 14 front end) and
+    cxx/repro_driver.cpp (with -DHGV_REPRO_NO_RECORD: the companion graph loses its recorder node) with `clang++-14 -std=c++2b -O1 -g -fsanitize=thread` into
     /var/tmp/hgv-repro-tsan/obj (content-addressed by source + depfile hashes, so an edit of /repo
     recompiles what it touches);
   * takes every OTHER object of the tree from the shared g++ cache (hgvlib.build, read-only use);
@@ -40,8 +40,12 @@ from gen import repro  # noqa: E402
 ROOT = "/var/tmp/hgv-repro-tsan"
 OBJ = os.path.join(ROOT, "obj")
 CLANG = "clang++-14"
+# record_replay_memory_impl.cpp (and its header) crash the clang 14 front end (exit 139), so the recorder stays a g++
+# object and the driver is compiled with -DHGV_REPRO_NO_RECORD (companion graph without the recorder node).
 INSTRUMENTED = ["src/hgraph/types/metadata/type_registry.cpp", "src/hgraph/types/metadata/type_record_registry.cpp",
-                "src/hgraph/types/utils/counted_mutex.cpp", "src/hgraph/lib/std/operators/record_replay_memory_impl.cpp"]
+                "src/hgraph/types/utils/counted_mutex.cpp"]
+ORACLE_KINDS = {"rep_differs", "noise_rep_differs", "comp_rep_differs", "state_leak", "child_state_leak", "gs_counter",
+                "gs_foreign_read", "callback_cross_run", "crash", "build_error", "unexpected_error"}
 
 
 def flags():
@@ -50,16 +54,19 @@ def flags():
 
 
 def key_of(src, deps, fl):
-    h = hashlib.sha256(" ".join(fl).encode())
+    """Paths enter the key relative to the tree root (build._norm), so HGV_REPO=<scratch copy> shares every
+    object whose inputs it did not change."""
+    h = hashlib.sha256(build._norm(" ".join(fl)).encode())
     for p in [src] + deps:
-        h.update(p.encode())
+        h.update(build._norm(p).encode())
         h.update(build.file_hash(p).encode())
     return h.hexdigest()[:32]
 
 
 def compile_one(src, fl, db):
-    deps = db.get(src)
+    deps = db.get(build._norm(src))
     if deps is not None:
+        deps = [build._denorm(d) for d in deps]
         obj = os.path.join(OBJ, key_of(src, deps, fl) + ".o")
         if os.path.exists(obj):
             return src, obj, deps, ""
@@ -84,7 +91,7 @@ def build_variant(jobs):
     drv = os.path.join(VERIF, "cxx", "repro_driver.cpp")
     rest = [t for t in tus if t not in inst]
     with build.Lock():
-        gobjs, errs, _ = build.build_objects(rest, jobs=jobs)
+        gobjs, errs, _ = build.build_objects(tus, jobs=jobs)      # every TU as a g++ object (fallbacks come from here)
     if errs:
         print("g++ objects failed:", list(errs)[:3])
         return None
@@ -96,15 +103,22 @@ def build_variant(jobs):
     fl = flags()
     t0 = time.time()
     objs = {}
+    fallback = []
     with cf.ThreadPoolExecutor(max_workers=jobs) as ex:
-        for src, obj, deps, log in ex.map(lambda s: compile_one(s, fl, db), inst + [drv]):
+        for src, obj, deps, log in ex.map(lambda s: compile_one(s, fl + (["-DHGV_REPRO_NO_RECORD"] if s == drv else []), db), inst + [drv]):
             if obj is None:
-                print("clang TSan compile failed for %s:\n%s" % (src, log))
-                return None
+                if src == drv:
+                    print("clang TSan compile failed for the driver:\n%s" % log)
+                    return None
+                # clang 14 cannot compile some TUs against libstdc++ 12 (ranges): they stay uninstrumented g++ objects
+                fallback.append(os.path.relpath(src, repo))
+                objs[src] = gobjs[src]
+                continue
             objs[src] = obj
-            db[src] = deps
+            db[build._norm(src)] = [build._norm(d) for d in deps]
     json.dump(db, open(dbp, "w"))
-    print("[tsan] %d instrumented TUs ready in %.0fs" % (len(objs), time.time() - t0))
+    print("[tsan] %d TUs instrumented in %.0fs; not compilable by clang 14, left uninstrumented: %s"
+          % (len(objs) - len(fallback), time.time() - t0, fallback))
     allobjs = [objs[drv]] + [objs[s] for s in inst] + [gobjs[s] for s in rest]
     binp = os.path.join(ROOT, "repro-tsan-" + hashlib.sha256(" ".join(allobjs).encode()).hexdigest()[:16])
     if not os.path.exists(binp):
@@ -149,7 +163,7 @@ def main():
     finally:
         os.unlink(batch)
     outs = runner.parse_batch(so)
-    bad = sum(1 for c, o in zip(cases, outs) if repro.oracle("C07", c, o))
+    bad = sum(1 for c, o in zip(cases, outs) if any(k in ORACLE_KINDS for k, _ in repro.oracle("C07", c, o)))
     reports = []
     for f in os.listdir(ROOT):
         if f.startswith("tsan-report"):
